@@ -923,6 +923,9 @@ class QasmVisitor:
         """
         logger.debug("Visiting phase operation '%s'", str(operation))
 
+        # every application is a statement of its own: under pow() the same operation is visited
+        # repeatedly and must not see the argument already folded (and negated) by the last visit
+        operation = copy.copy(operation)
         evaluated_arg = Qasm3ExprEvaluator.evaluate_expression(operation.argument)[0]
         if isinstance(evaluated_arg, (bool, np.bool_)):
             evaluated_arg = int(evaluated_arg)
